@@ -4,7 +4,7 @@ Recorded calls of the real dataFilter / dataCalculatedField / dataTop / dataAggr
 (through the script-function wrappers, counts as floats) on tables up to 12 rows x 5 fields with duplicate keys,
 nulls, mixed key types, colliding field names (a, a2, a3), key strings containing JSON punctuation, datetimes next
 to their own ISO text; TLC evaluates the relational definitions of Trace_Data on the recorded inputs and outputs
-(expressions are evaluated by BareCore.Eval).  dataSort is judged in C11 (Trace_Compare "datasort")."""
+(expressions are evaluated by BareCore.Eval).  dataSort is judged with the row comparator law of Trace_Compare (kind "datasort"), here and in C11."""
 import copy
 import csv
 import datetime
@@ -223,7 +223,13 @@ def run(ctx, replay=None):
     F.judge(ctx, 'Trace_Data', cases, canaries, key_fields=('kind', 'rows', 'left', 'right', 'text', 'cats', 'measures', 'count'),
             describe=lambda c: {k: c[k] for k in ('kind', 'text', 'count') if c.get(k)} | {'rows': len(c['rows']) or len(c['left'])},
             nontrivial=lambda c: bool(c['rows'] or c['left']))
-    kinds = {}
+    # dataSort: stably ordered by the keys and directions (law stated with Compare in Trace_Compare)
+    from . import c11
+    pool = c11.pool(rnd, 120)
+    sorts = [c11.datasort_case(rnd, pool) for _ in range(ctx.pick(1500, 30000))]
+    F.judge(ctx, 'Trace_Compare', sorts, c11.canaries, tag='sort', key_fields=('inp', 'fields'),
+            describe=lambda c: {'kind': 'datasort', 'fields': c['fields'], 'rows': len(c['inp'])}, nontrivial=lambda c: len(c['inp']) > 1)
+    kinds = {'datasort': len(sorts)}
     for c in cases:
         kinds[c['kind']] = kinds.get(c['kind'], 0) + 1
     ctx.notes['calls_by_function'] = kinds
